@@ -252,6 +252,38 @@ def run(ctx):
                          "abstract execution of close", "%s: %s" % (type(ex).__name__, ex))
     ctx.floor("C18 close failure scenarios", nscen, 15)
 
+    gates = open_gates(ctx)
+    ctx.floor("C18 open gates", gates, 9)
+
+    # ---- abort
+    ab = P.fn("carquet_writer_abort", FW)
+    fc, rm = ab.calls("fclose"), ab.calls("remove")
+    ctx.ob("R6.order", "abort|%s:carquet_writer_abort" % FW, P.where(ab.body),
+           "abort closes the stream and then removes the file for path-based writers",
+           len(fc) == 1 and len(rm) == 1 and ab.cfg.node_dominates(fc[0], rm[0]))
+    # ... at any point of the writer's life: the removal depends only on the writer owning a path-based
+    # stream, never on how far writing got
+    allowed = {"owns_file", "file", "path"}
+    offending = []
+    for c in rm + [r for r in ab.returns()]:
+        for a in c.ancestors():
+            if a.k == "IfStmt":
+                cond = [x for x in a.c if x is not None][0]
+                for m in cond.walk():
+                    if m.k == "MemberExpr" and m.name not in allowed:
+                        offending.append((a, m.name))
+                    if m.k == "CallExpr":
+                        offending.append((a, src(m)[:30]))
+    ctx.ob("R6.order", "abort-unconditional|%s:carquet_writer_abort" % FW, P.where(offending[0][0] if offending else ab.body),
+           "whether abort removes the file depends only on {owns_file, file, path}, not on the writing progress",
+           not offending and len(rm) == 1, "also depends on: %s" % sorted(set(o[1] for o in offending)) if offending else "")
+
+
+def open_gates(ctx):
+    """The three open paths executed abstractly over file sizes x magic outcomes x footer lengths x parser outcome.
+    The bytes of the envelope are given to the interpreter (through the length / compare helpers when the code uses
+    them, byte by byte when it assembles them itself); everything else of the file is unknown."""
+    P = ctx.P
     # ---- open paths: validation gates parsing (abstract execution over file sizes x magic outcomes x
     # footer lengths; the byte comparisons and the length read are hooked, contents stay unknown)
     from ..rules import sem
@@ -263,12 +295,15 @@ def run(ctx):
         bad = None
         unparsed_valid = None
         oob = None
+        schema_bad = None
+        alloc_bad = None
         scen = 0
         try:
             for S in list(range(0, 17)) + [20, 100]:
                 for head_ok in (True, False):
                     for tail_ok in (True, False):
                         for FL in sorted(set(x for x in (0, 1, S - 12, S - 9, S - 8, S - 7, S, 0xFFFFFFFF) if x >= 0)):
+                          for parse_ok in ((True, False) if (S in (12, 20, 100) and tail_ok and head_ok) else (True,)):
                             scen += 1
                             state = {"seek": None}
 
@@ -299,18 +334,42 @@ def run(ctx):
                             def h_parse(ev, a, it):
                                 ev.append(("parse", a[0].off if isinstance(a[0], sem.Ptr) else a[0],
                                            a[0].base if isinstance(a[0], sem.Ptr) else None, a[1]))
-                                return 0
+                                return 0 if parse_ok else 9
+
+                            def h_fread(ev, a, it, S=S, FL=FL, tail_ok=tail_ok):
+                                n_ = (a[1] * a[2]) if isinstance(a[1], int) and isinstance(a[2], int) else sem.U
+                                # the 8 tail bytes read into a local buffer: footer length (little-endian) and the magic
+                                if n_ == 8 and isinstance(a[0], sem.Ptr) and isinstance(a[0].off, int) and a[0].base != "footer":
+                                    for i_ in range(4):
+                                        it.heap[(a[0].base, a[0].off + i_)] = (FL >> (8 * i_)) & 0xFF
+                                    for i_, ch in enumerate(b"PAR1" if tail_ok else b"PARX"):
+                                        it.heap[(a[0].base, a[0].off + 4 + i_)] = ch
+                                return n_
+
+                            def file_bytes(base, off, size, S=S, FL=FL, head_ok=head_ok, tail_ok=tail_ok):
+                                if base != "file" or not isinstance(off, int):
+                                    return None
+                                img = {}
+                                for i_ in range(4):
+                                    img[S - 8 + i_] = (FL >> (8 * i_)) & 0xFF
+                                for i_, ch in enumerate(b"PAR1" if tail_ok else b"PARX"):
+                                    img[S - 4 + i_] = ch
+                                for i_, ch in enumerate(b"PAR1" if head_ok else b"PARX"):
+                                    img.setdefault(i_, ch)
+                                if all((off + i_) in img for i_ in range(size)) and off >= 0 and off + size <= S:
+                                    return sum(img[off + i_] << (8 * i_) for i_ in range(size))
+                                return None
                             hooks = {"memcmp": h_memcmp, "carquet_read_u32_le": h_u32, "parquet_parse_file_metadata": h_parse,
-                                     "build_schema": lambda ev, a, it: sem.Ptr("schema", 0, 1),
+                                     "build_schema": lambda ev, a, it: ev.append(("build_schema",)) or sem.Ptr("schema", 0, 1),
                                      "carquet_error_set": lambda ev, a, it: 0,
                                      "calloc": lambda ev, a, it: sem.Ptr("reader", 0, 1),
-                                     "malloc": lambda ev, a, it: sem.Ptr("footer", 0, 1),
+                                     "malloc": lambda ev, a, it: ev.append(("malloc", a[0])) or sem.Ptr("footer", 0, 1),
                                      "free": lambda ev, a, it: 0, "carquet_arena_init": lambda ev, a, it: 0,
                                      "carquet_arena_destroy": lambda ev, a, it: 0,
                                      "carquet_reader_options_init": lambda ev, a, it: 0,
                                      "fseek": lambda ev, a, it: ev.append(("seek", a[1], a[2])) or 0,
                                      "ftell": lambda ev, a, it, S=S: S,
-                                     "fread": lambda ev, a, it: (a[1] * a[2]) if isinstance(a[1], int) and isinstance(a[2], int) else sem.U}
+                                     "fread": h_fread}
                             if kind == "buffer":
                                 args = [sem.Ptr("file", 0, 1), S, 0, sem.Ptr("err", 0, 1)]
                                 heap0 = {}
@@ -318,12 +377,17 @@ def run(ctx):
                                 args = [sem.Ptr("reader", 0, 1), sem.Ptr("err", 0, 1)]
                                 heap0 = {("reader", ro["mmap_data"]): sem.Ptr("file", 0, 1), ("reader", ro["file_size"]): S,
                                          ("reader", ro["file"]): sem.Ptr("FILE", 0, 1)}
-                            paths = sem.run(P, f, args, heap0=heap0, hooks=hooks, single=False, max_forks=64)
+                            paths = sem.run(P, f, args, heap0=heap0, hooks=hooks, single=False, max_forks=64, memory=file_bytes)
                             valid_min = S >= 12 and tail_ok and FL <= S - 8
                             for ret, ev, heap in paths:
                                 parsed = [e for e in ev if e[0] == "parse"]
                                 if [e for e in ev if e[0] in ("oob", "len-at")] and oob is None:
                                     oob = "size %d: reads the file at offset %s" % (S, [e for e in ev if e[0] in ("oob", "len-at")][0][1])
+                                built = [e for e in ev if e[0] == "build_schema"]
+                                if built and (not parsed or not parse_ok) and schema_bad is None:
+                                    schema_bad = "size %d, footer length %d, parser %s: build_schema runs" % (S, FL, "fails" if parsed else "not reached")
+                                if not valid_min and FL > 64 and any(e[0] == "malloc" and e[1] == FL for e in ev) and alloc_bad is None:
+                                    alloc_bad = "size %d, footer length %d: a buffer of the unvalidated footer length is allocated" % (S, FL)
                                 if parsed and not valid_min and bad is None:
                                     bad = "size %d, trailing magic %s, footer length %d: the footer is parsed" % (
                                         S, "ok" if tail_ok else "wrong", FL)
@@ -348,37 +412,12 @@ def run(ctx):
                "%s reads magic and footer length only inside the file (length at size-8)" % fname, oob is None, oob or "")
         ctx.ob("R6.dominate", "open-gate|%s:%s|accepts-valid" % (file_, fname), P.where(f.body),
                "%s reaches the footer parser for every well-formed envelope" % fname, unparsed_valid is None, unparsed_valid or "")
-        # is_open / success only after status and schema tests
-        parse = f.calls("parquet_parse_file_metadata")
-        bs = f.calls("build_schema")
-        if len(parse) == 1 and len(bs) == 1:
-            ctx.ob("R6.dominate", "open-schema|%s:%s" % (file_, fname), P.where(f.body),
-                   "%s: build_schema runs only after the parse status was tested" % fname,
-                   f.cfg.node_dominates(parse[0], bs[0]) and _status_tested_between(f, parse[0], bs[0]))
-    ctx.floor("C18 open gates", gates, 9)
-
-    # ---- abort
-    ab = P.fn("carquet_writer_abort", FW)
-    fc, rm = ab.calls("fclose"), ab.calls("remove")
-    ctx.ob("R6.order", "abort|%s:carquet_writer_abort" % FW, P.where(ab.body),
-           "abort closes the stream and then removes the file for path-based writers",
-           len(fc) == 1 and len(rm) == 1 and ab.cfg.node_dominates(fc[0], rm[0]))
-    # ... at any point of the writer's life: the removal depends only on the writer owning a path-based
-    # stream, never on how far writing got
-    allowed = {"owns_file", "file", "path"}
-    offending = []
-    for c in rm + [r for r in ab.returns()]:
-        for a in c.ancestors():
-            if a.k == "IfStmt":
-                cond = [x for x in a.c if x is not None][0]
-                for m in cond.walk():
-                    if m.k == "MemberExpr" and m.name not in allowed:
-                        offending.append((a, m.name))
-                    if m.k == "CallExpr":
-                        offending.append((a, src(m)[:30]))
-    ctx.ob("R6.order", "abort-unconditional|%s:carquet_writer_abort" % FW, P.where(offending[0][0] if offending else ab.body),
-           "whether abort removes the file depends only on {owns_file, file, path}, not on the writing progress",
-           not offending and len(rm) == 1, "also depends on: %s" % sorted(set(o[1] for o in offending)) if offending else "")
+        ctx.ob("R6.dominate", "open-schema|%s:%s" % (file_, fname), P.where(f.body),
+               "%s: build_schema runs only after the footer was parsed successfully (parser hooked to fail / succeed)" % fname,
+               schema_bad is None, schema_bad or "")
+        ctx.ob("R3.extent", "footer-size|%s:%s" % (file_, fname), P.where(f.body),
+               "%s allocates a footer buffer only for a footer length it has compared with the file size" % fname, alloc_bad is None, alloc_bad or "")
+    return gates
 
 
 def _status_tested_between(f, a, b):
